@@ -25,7 +25,9 @@ _N = {}         # number of line events per (scenario, family): measured once
 SCENARIOS = ['main-edit-with-dir-override', 'dir-edit',
              'defaults-with-permissive-default-rule', 'deprecated-defaults',
              'deprecated-defaults-both-names', 'alias-edit',
-             'dir-file-overrides-two', 'dir-edit-removes-override']
+             'dir-file-overrides-two', 'dir-edit-removes-override',
+             'defaults-last-one-overridden', 'dir-edit-no-overwrite']
+ENF_KW = {'dir-edit-no-overwrite': {'overwrite': False}}
 
 
 def _setup(env, scenario):
@@ -129,6 +131,29 @@ def _setup(env, scenario):
         def edit():
             env.write('policy.d/over.yaml', {'pm': 'role:owner'})
         return defaults, ['s', 'pm', 'c:z'], edit, ['ops', 'owner', 'admin']
+    if scenario == 'defaults-last-one-overridden':
+        # as 'defaults-with-permissive-default-rule', but the file overrides
+        # the default that was registered LAST
+        env.write('policy.yaml', {'default': '', 'svc:get': 'role:member'})
+        defaults = [policy.RuleDefault('svc:delete', 'role:admin'),
+                    policy.RuleDefault('svc:list', 'role:reader'),
+                    policy.RuleDefault('svc:get', 'role:reader')]
+
+        def edit():
+            env.write('policy.yaml', {'default': '', 'svc:get': 'role:reader'})
+        return defaults, ['svc:delete', 'svc:list', 'svc:get'], edit, \
+            ['admin', 'reader', 'member']
+    if scenario == 'dir-edit-no-overwrite':
+        # Enforcer(overwrite=False): a directory edit is merged over the
+        # live rule store; the main file is NOT laid over it again first
+        env.write('policy.yaml', {'a:x': 'role:m', 'b:y': 'role:m'})
+        env.write('policy.d/over.yaml', {'a:x': 'role:d1'})
+        defaults = [policy.RuleDefault('e:w', 'role:df')]
+
+        def edit():
+            env.write('policy.d/over.yaml', {'a:x': 'role:d2'})
+        return defaults, ['a:x', 'b:y', 'e:w'], edit, \
+            ['m', 'd1', 'd2', 'df']
     raise ValueError(scenario)
 
 
@@ -154,7 +179,7 @@ def _count_lines(scenario, family, probe):
     env = common.PolicyEnv()
     try:
         defaults, probes, edit, roles = _setup(env, scenario)
-        enf = env.enforcer(defaults=defaults)
+        enf = env.enforcer(defaults=defaults, **ENF_KW.get(scenario, {}))
         enf.load_rules()
         if family != 'decider-first':
             edit()
@@ -182,9 +207,10 @@ def run_schedule(ctx, scenario, family, probe, lo, hi):
     try:
         defaults, probes, edit, roles = _setup(env, scenario)
         creds = {'roles': ctx.roles('creds', roles)}
-        enf = env.enforcer(defaults=defaults)
+        kw = ENF_KW.get(scenario, {})
+        enf = env.enforcer(defaults=defaults, **kw)
         enf.load_rules()
-        old = env.enforcer(defaults=defaults)
+        old = env.enforcer(defaults=defaults, **kw)
         d_old = bool(old.enforce(probe, {}, creds))
         g_old = _state(old, probes)
         if family != 'decider-first':
@@ -220,7 +246,7 @@ def run_schedule(ctx, scenario, family, probe, lo, hi):
         for e in (mon.exc, h['exc']):
             if isinstance(e, BaseException) and not isinstance(e, Exception):
                 raise e             # engine control flow from the thread
-        new = env.enforcer(defaults=defaults)
+        new = env.enforcer(defaults=defaults, **kw)
         d_new = bool(new.enforce(probe, {}, creds))
         g_new = _state(new, probes)
         if family == 'writer-paused':
@@ -265,7 +291,9 @@ def cubes_schedule(tier, seed):
             ('deprecated-defaults-both-names', ['new']),
             ('alias-edit', ['a:x', 'c:z']),
             ('dir-file-overrides-two', ['c:z']),
-            ('dir-edit-removes-override', ['c:z'])]
+            ('dir-edit-removes-override', ['c:z']),
+            ('defaults-last-one-overridden', ['svc:delete']),
+            ('dir-edit-no-overwrite', ['a:x'])]
     if tier != 'quick':
         plan = [('main-edit-with-dir-override', ['a:x', 'b:y', 'c:z', 'e:w']),
                 ('dir-edit', ['a:x', 'b:y', 'e:w']),
@@ -275,7 +303,9 @@ def cubes_schedule(tier, seed):
                 ('deprecated-defaults-both-names', ['new', 'keep']),
                 ('alias-edit', ['a:x', 'b:y', 'c:z']),
                 ('dir-file-overrides-two', ['c:z', 'other']),
-                ('dir-edit-removes-override', ['c:z'])]
+                ('dir-edit-removes-override', ['c:z']),
+                ('defaults-last-one-overridden', ['svc:delete', 'svc:list']),
+                ('dir-edit-no-overwrite', ['a:x', 'b:y'])]
     fams = ['writer-paused', 'reader-paused', 'decider-first']
     for sc, probes in plan:
         for fam in fams:
